@@ -110,10 +110,10 @@ def run(ctx):
 
     g1 = ctx.tlc("edgesync", "EdgeSync", "Gen_one.cfg" if quick else "Gen_one_large.cfg", timeout=2400, workers=6)
     n1 = take(g1, "one")
-    g2 = ctx.tlc("edgesync", "EdgeSync", "Gen_small.cfg", mode="simulate", num=150 if quick else 2500, depth=400,
+    g2 = ctx.tlc("edgesync", "EdgeSync", "Gen_small.cfg", mode="simulate", num=150 if quick else 1000, depth=400,
                  timeout=2400, workers=4)
     n2 = take(g2, "sim")
-    g3 = ctx.tlc("edgesync", "EdgeSync", "Gen_hub.cfg", mode="simulate", num=100 if quick else 1500, depth=400,
+    g3 = ctx.tlc("edgesync", "EdgeSync", "Gen_hub.cfg", mode="simulate", num=100 if quick else 600, depth=400,
                  timeout=2400, workers=4)
     n3 = take(g3, "simhub")
     if not n1 or not n2 or not n3:
